@@ -292,7 +292,7 @@ def build_mixed(ch, acc, with_ack_groups=True, **kw):
 
 
 ENVELOPE_FAULTS = ['se-count', 'se-id', 'ge-count', 'ge-id', 'iea-count', 'iea-id', 'gs-date', 'gs-time', 'st-dup', 'gs-dup', 'gs-code',
-                   'se-count-alpha', 'st-id-long', 'se-count', 'st-dup', 'st-many-codes', 'st-many-codes', 'st-many-codes', 'drop-trailer', 'st-dup-far', 'gs-dup-far', 'trailer-and-neighbour', 'trailer-and-neighbour', 'envelope-extra-element', 'envelope-extra-element', 'stray-after-trailer', 'stray-after-trailer', 'spelling', 'spelling', 'spelling', 'header-cut-short', 'header-cut-short']
+                   'se-count-alpha', 'st-id-long', 'se-count', 'st-dup', 'st-many-codes', 'st-many-codes', 'st-many-codes', 'drop-trailer', 'st-dup-far', 'gs-dup-far', 'trailer-and-neighbour', 'trailer-and-neighbour', 'envelope-extra-element', 'envelope-extra-element', 'stray-after-trailer', 'stray-after-trailer', 'spelling', 'spelling', 'spelling', 'header-cut-short', 'header-cut-short', 'count-with-components', 'count-with-components']
 
 
 def envelope_fault(doc, ch):
@@ -334,6 +334,11 @@ def _envelope_fault(doc, ch):
                         break
                 return kind
         return None
+    elif kind == 'count-with-components':
+        # a count that wrongly carries components: however its text looks under the file's component separator ('1_0', '+1'),
+        # it is no number
+        s = pick(ch.choice(['GE', 'GE', 'IEA', 'SE']))
+        s.vals[0] = ch.choice([['1', '0'], ['', '1'], [s.vals[0][0], '']])
     elif kind == 'spelling':
         # a blank in front of a segment identifier and / or separators after its last element, on any segment but the ISA
         c = [s_ for s_ in doc.segs if s_.id != 'ISA' and getattr(s_, 'raw_pattern', None) is None]
